@@ -3,7 +3,7 @@
 TLA+ (spec/Fill.tla) decides; this driver renders abstract frames (cells: -1 = NaN, values >= 0, symbolic codes
 for the strange floats: spec/Fill.tla Specials) into numpy arrays / pd.Series / pd.DataFrame, calls df_fillna /
 nona - single calls and histories of calls on shared objects - and encodes results and arguments."""
-import datetime, math, struct, sys, warnings
+import datetime, json, math, struct, sys, warnings
 import numpy as np
 import pandas as pd
 from harness.x_pool import pmap
@@ -900,6 +900,24 @@ def replay(ctx, body):
     return 1 if bad else 0
 
 
+def pfamily(case):
+    """the stratum of a process session: which object the later calls take (y: another input of the same shape; der: an object
+    derived from the result; x: the input again; cur: the result itself) and whether the last call repeats the first method list"""
+    calls = [h for h in case['hist'] if h['a'] == 'call']
+    fam = 'y' if any(h['src'] == 'y' for h in calls) else 'der' if any(h['a'] == 'der' for h in case['hist']) else calls[-1]['src']
+    return fam + ('_same' if calls[-1]['ms'] == calls[0]['ms'] else '_other')
+
+
+def pick_psessions(rng, cases, sizes):
+    strata = {}
+    for c in cases:
+        strata.setdefault(pfamily(c), []).append(c)
+    out = []
+    for k in sorted(strata):
+        out += rng.sample(strata[k], min(len(strata[k]), sizes.get(k, sizes['*'])))
+    return out, {k: len(v) for k, v in sorted(strata.items())}
+
+
 def by_family(cases):
     out = {}
     for c in cases:
@@ -914,8 +932,15 @@ def run(ctx):
                 'families of MC_FillX - frames with strange floats (+-inf, -0.0, extreme, fractional, negative cells), repeated '
                 'and unsorted row labels, nona(value, edge) in every spelling of NaN and of numbers - and for the histories '
                 'of MC_FillS (calls on the input object / the previous result with a shared method-list object; every object '
-                're-read after every call).  Cases with several admitted outcomes and the C2S runs (random vectors / frames '
-                '<= 40 rows, 1-3 columns, lists of <= 3 methods; the same corners at random, histories of 2-4 calls) are '
+                're-read after every call) - and for the PROCESS SESSIONS of MC_FillP, replayed in one process in the order of '
+                'the history: call ; the caller derives a new input from the RESULT (reindex onto a longer index / back onto the '
+                'full calendar, lag, withdraw an observation in place, slice, copy, x * 1, values into a new object) or builds '
+                'ANOTHER input of the same shape (every mask, other values) or takes the same input again ; call with the same '
+                'methods (same / other limit) or another method list; outcome after every step == what TLC printed (law = Fillna '
+                'of the contents of the object passed at that moment), both inputs and the passed object re-read after every step; '
+                'stratified by (object of the later call, same / other methods).  Cases with several admitted outcomes and the C2S runs (random vectors / frames '
+                '<= 40 rows, 1-3 columns, lists of <= 3 methods; the same corners at random, histories of 2-4 calls; random '
+                'process sessions of 2-4 calls with <= 2 derivations in a row, the poked row chosen on the live object) are '
                 'judged by Trace_Fill.  Non-trivial = the input has both NaN and valid cells and a call changed something; '
                 'distinct by (cells, methods, limit, family parameters / calls).')
     rng = ctx.rng
@@ -935,7 +960,11 @@ def run(ctx):
         hists = canonical(ctx.mc('MC_FillS', 'MC_FillS_quick.cfg').emitted)
         ctx.extra['s2c_enumerated_histories'] = len(hists)
         s2c(ctx, rng.sample(hists, 1200), 'histories', session_chunk)
-        c2s(ctx, 400, 500)
+        # process sessions: call ; the caller derives a new input from the result / builds another input of the same shape ; call
+        psess = canonical(ctx.mc('MC_FillP', 'MC_FillP_quick.cfg').emitted)
+        chosen, ctx.extra['s2c_enumerated_process_sessions'] = pick_psessions(rng, psess, {'y_same': 500, 'y_other': 300, 'der_same': 800, 'der_other': 600, '*': 200})
+        s2c(ctx, chosen, 'process_sessions', psession_chunk)
+        c2s(ctx, 400, 500, 300)
     else:
         ctx.mc('MC_Fill', 'MC_Fill_thorough.cfg')
         ctx.mc('MC_Fill', 'MC_Fill_thorough3.cfg')
@@ -952,7 +981,14 @@ def run(ctx):
         hists = canonical(ctx.mc('MC_FillS', 'MC_FillS_gen.cfg').emitted)
         ctx.extra['s2c_enumerated_histories'] = len(hists)
         s2c(ctx, pick(hists, 20000), 'histories', session_chunk)
-        c2s(ctx, 6000, 6000)
+        ctx.mc('MC_FillP', 'MC_FillP_memo.cfg', must_fail='PRefines')       # a memo carried by the data object breaks the call after a derivation
+        psess = canonical(ctx.mc('MC_FillP', 'MC_FillP_thorough.cfg').emitted)
+        chosen, ctx.extra['s2c_enumerated_process_sessions'] = pick_psessions(rng, psess, {'y_same': 12000, 'y_other': 6000, 'der_same': 14000, 'der_other': 8000, '*': 3000})
+        s2c(ctx, chosen, 'process_sessions', psession_chunk)
+        sims = ctx.generate('MC_FillP', 'MC_FillP_sim.cfg', simulate=3000, depth=40, seed=ctx.seed + 1, workers=1)      # longer sessions: 4 calls, <= 2 derivations in a row
+        sims = [json.loads(c) for c in sorted({json.dumps(c, sort_keys=True) for c in sims})]
+        s2c(ctx, sims, 'simulated_sessions', psession_chunk)
+        c2s(ctx, 6000, 6000, 4000)
     report(ctx)
     ctx.exhaustive = False
     ctx.assumptions += [
@@ -962,6 +998,12 @@ def run(ctx):
         'small-scope: MC/S2C vectors <= 6 (thorough 8) cells, frames <= 4x2 (thorough 5x2), lists of <= 2 (thorough 3) methods; strange-cell / '
         'label / nona(value) families on vectors <= 3-4 (thorough 4-5) and frames <= 2x2 (thorough 3x2); histories of 2 (MC thorough: 3) calls '
         'on vectors <= 3 (thorough 4; frames 2x2); C2S <= 40 rows, histories of 2-4 calls',
+        'process sessions: MC/S2C x = vectors <= 3 (thorough 4) and 2-column frames of 1 (thorough 2) rows, y = every frame of the same '
+        'shape (vectors <= 3 / thorough 4, 1 x 2), 8 (thorough 11) method lists, limits {None, 1}; two calls with at most one derivation in '
+        'between (thorough: TLC-simulated sessions of 4 calls, <= 2 derivations in a row, limits <= 2, frames <= 3 x 2); a derivation is '
+        'always passed on to the next call; an observation is withdrawn in place only from an object that is the caller\'s own (the empty '
+        'method list hands the input object back: documented, not poked); "back onto the full calendar" needs labels and is not done to arrays; '
+        'a read-only array result (pandas hands out read-only .values) is copied before it is edited',
         'IncreasingIndex: fnna, ffill_na, ffill_0 and nona(edge) find their boundary BY LABEL; they are exercised on strictly increasing '
         'indexes only (date, integer - also starting at the falsy 0 -, float, string, default RangeIndex); ffill, bfill, constants and nona, '
         'which the statement defines by position alone, also on repeated, constant, decreasing and shuffled labels.  nona(edge=+-1) is '
